@@ -365,7 +365,9 @@ macro_rules! wide_int {
     ($fname:ident, $S:ty, $signed:expr) => {
         fn $fname(d: &mut Draw) -> Outcome {
             let w = |d: &mut Draw| -> $S {
-                match d.int(0, 5) {
+                match d.int(0, 6) {
+                    // the range ends of the *narrower* integer types (where a "do it in fewer bits" shortcut would trip), +-1
+                    6 => (d.pick(&[-128i128, 127, 128, 255, 256, -32768, 32767, 32768, 65535, 65536, -2147483648, 2147483647, 2147483648, 4294967295, 4294967296]) + d.int(-1, 1) as i128 * (d.int(0, 3) == 0) as i128) as $S,
                     0 => d.bits64() as $S,
                     1 => d.pick(&[<$S>::MIN, <$S>::MAX, <$S>::MIN + 1, <$S>::MAX - 1, 0, 1, 2, <$S>::MAX / 2, <$S>::MAX / 2 + 1]),
                     2 => {
